@@ -122,7 +122,8 @@ where
           let refDepth ← match r with
             | .ref e' _ => do pure (← getFrame e').depth
             | _ => pure 0
-          if !(isConstant name && refDepth == 0) && !isFuncObj obj then
+          -- nor is a function held by a variable of an enclosing CALL (repo fix: `mk=func(g){func(x){g(x)}}`): only top level functions
+          if !(isConstant name && refDepth == 0) && !(isFuncObj obj && refDepth == 0) then
             modifyFrame orig fun f => { f with getMiss := f.getMiss + 1 }
           pure (some r)
 
@@ -148,7 +149,7 @@ def envGet (e : Nat) (name : String) : M (Option Obj) := do
     else
       let tgt ← refValue re rn
       let refDepth := (← getFrame re).depth
-      if !(isConstant rn && refDepth == 0) && !isFuncObj tgt then
+      if !(isConstant rn && refDepth == 0) && !(isFuncObj tgt && refDepth == 0) then
         modifyFrame e fun f => { f with getMiss := f.getMiss + 1 }
       pure (some (.ref re rn))
   | some obj => pure (some obj)
